@@ -509,8 +509,10 @@ func (st *wstate) runLifetime(i int, l *scen.Lifetime) {
 		if ex.Dirty {
 			lf.Tally[obs]++
 			st.d.NoteDirtyCall(ex)
+			out.Stats.Probes["calls_not_judged_"+ex.Why]++
 			continue
 		}
+		out.Stats.Probes["judged_"+ex.Why+"_"+ex.Outcome]++
 		if ex.Prev != nil {
 			out.Stats.NonTrivial = true
 		}
@@ -675,6 +677,15 @@ func (st *wstate) runLifetime(i int, l *scen.Lifetime) {
 			}
 		}
 		plan = lf.PlanClean(st.d, rep.Ran, rep.SkipCalls)
+		for _, prop := range plan.KeepTests {
+			out.Stats.Probes["clean_keep_entries_"+prop]++
+		}
+		for _, prop := range plan.KeepFiles {
+			out.Stats.Probes["clean_keep_files_"+prop]++
+		}
+		out.Stats.Probes["clean_obsolete_entries"] += len(plan.ObsoleteTests)
+		out.Stats.Probes["clean_obsolete_files"] += len(plan.ObsoleteFiles)
+		out.Stats.Probes["clean_free_items"] += len(plan.FreeTests) + len(plan.FreeFiles)
 		if st.checkClean(i, l, lf, rep, plan, anyFault, cleanTouched, readdirOnly) {
 			return
 		}
